@@ -14,6 +14,12 @@ full (`scenario@lim<k>`: RLIMIT_NOFILE leaves k numbers, the next creation gets 
 (every foreign number must still name the same open file description as a witness dup taken before), not by number; the
 model's number-level view (`FdScript.execK`: lowest-free allocation from the entry table) must predict the numbers the
 creations received and the final table.
+Build profile: the streams run against TWO compiled artefacts of the same working tree, the harness built in the dev
+profile (debug assertions on, opt-level 0) and in the release profile (debug assertions off, opt-level 2): clean-up that
+only exists under cfg(debug_assertions) / inside debug_assert! (or only without it) differs between the two, and the
+script describes neither compiler setting but the source.  Stream names, violations and replays carry the profile.
+io_uring: `setup_io_uring` and `drop(ring)` (Drop of IoUring as an operation owning the ring fd) are scenarios too, with
+and without IORING_FEAT_SINGLE_MMAP; descriptors only — the mappings' balance is C18's.
 """
 import json
 
@@ -180,6 +186,10 @@ def steps_spawn(tr, out, ents):
     return "".join("0" if forced else "1" for n, r, forced in tr if n == "read" and r == "v8")
 
 
+def steps_single(tr, out, ents):
+    return "1" if ents == "S" else "0"
+
+
 def const(s):
     return lambda tr, out, ents: s
 
@@ -216,6 +226,10 @@ SCEN = {
     "pipe2": ("pipe2", const(".")), "epoll_create": ("epoll_create", const(".")), "epoll_use": ("epoll_use", const(".")),
     "getpwuid": ("getpwuid", steps_getpw), "getpwuid_last": ("getpwuid", steps_getpw),
     "openpty": ("openpty", const("1")), "openpty_named": ("openpty_named", const(".")), "openpty_tio": ("openpty_tio", const("1")),
+    # rusl's io_uring: set-up, and Drop as the operation `drop(ring)` (owns the ring fd on entry); `ents` = S / N: does the code
+    # see IORING_FEAT_SINGLE_MMAP (the kernel's answer to a probe; `_nosingle` hides it)
+    "io_uring_setup": ("io_uring_setup", steps_single), "io_uring_setup_nosingle": ("io_uring_setup", steps_single),
+    "io_uring_drop": ("io_uring_drop", steps_single), "io_uring_drop_nosingle": ("io_uring_drop", steps_single),
 }
 SPAWN = {k for k in SCEN if k.startswith("spawn_")}
 
@@ -343,22 +357,53 @@ def errno_class(f):
     return {"e4": "EINTR", "e11": "EAGAIN", "e24": "EMFILE", "e12": "ENOMEM", "e13": "EACCES"}.get(w, "value" if w[0] == "v" else "other")
 
 
-def run_cases(ctx, exe, drv, cases, stream):
+PROFILES = ("dev", "release")
+URING = ("io_uring_setup", "io_uring_setup_nosingle", "io_uring_drop", "io_uring_drop_nosingle")
+
+
+def build(ctx, profile):
+    """the harness (and with it rusl / tiny-std from /repo's working tree) in one cargo profile of harness/Cargo.toml:
+    dev = opt-level 0, debug assertions and overflow checks ON; release = opt-level 2, both OFF.  cargo keeps the two in
+    target/debug and target/release: neither rebuilds the other."""
+    return C.cargo_build(ctx, "c12", release=(profile == "release"))
+
+
+def run_cases(ctx, exe, drv, cases, stream, profile="dev"):
     """measure, judge, and compare with the model; returns the measured outputs"""
+    stream = "%s/%s" % (profile, stream)
     rc, outs, err = C.run_filter([exe], cases, timeout=1500)
     ctx.evaluations += len(cases)
     st = ctx.extra.setdefault("streams", {}).setdefault(stream, {"cases": 0, "disagreements": 0, "spec_failures": 0})
     st["cases"] += len(cases)
+    pf = ctx.extra.setdefault("profiles", {}).setdefault(profile, {"cases": 0, "spec_failures": 0, "disagreements": 0})
+    pf["cases"] += len(cases)
     if len(outs) != len(cases):
-        ctx.violation({"stream": stream, "kind": "harness-died"}, {"rc": rc, "stderr": err[-400:]}, no_input=True)
+        ctx.violation({"stream": stream, "kind": "harness-died", "profile": profile}, {"rc": rc, "stderr": err[-400:], "profile": profile}, no_input=True)
         return []
+    # a case killed by the 8 s watchdog on a machine under load is not a hang of the operation: a real one is
+    # deterministic and shows again when the case is run once more, with fewer neighbours (at most 8 cases per stream,
+    # 24 per run: a change that makes many cases hang does not buy itself minutes of retries)
+    hung = [i for i, o in enumerate(outs) if o.startswith("hang")]
+    budget = ctx.extra.setdefault("watchdog_retries", {"tried": 0, "not_reproduced": 0})
+    if hung and len(hung) <= 8 and budget["tried"] + len(hung) <= 24:
+        budget["tried"] += len(hung)
+        _, again, _ = C.run_filter([exe], [cases[i] for i in hung], timeout=600, env={"C12_JOBS": "4"})
+        if len(again) == len(hung):
+            for i, o in zip(hung, again):
+                if not o.startswith("hang"):
+                    outs[i] = o
+                    budget["not_reproduced"] += 1
     mlines, owner = [], []
     for i, (c, o) in enumerate(zip(cases, outs)):
         why = judge(c, o)
         if why:
             st["spec_failures"] += 1
-            ctx.violation(sig_of(c, o, why), {"stream": stream, "case": c, "implementation": o, "why": why,
-                                              "how_to_replay": "echo '%s' | %s" % (c, exe)})
+            pf["spec_failures"] += 1
+            sig = sig_of(c, o, why)
+            sig["profile"] = profile
+            ctx.violation(sig, {"stream": stream, "profile": profile, "case": c, "implementation": o, "why": why,
+                                "how_to_replay": "echo '%s' | %s   # the harness built in the %s profile (cargo build -p c12%s)"
+                                                 % (c, exe, profile, " --release" if profile == "release" else "")})
         if "=" in o and parse(o).get("out") not in (None, "panic"):
             for j, ml in enumerate(model_lines(c, o)):
                 mlines.append(ml)
@@ -373,52 +418,30 @@ def run_cases(ctx, exe, drv, cases, stream):
         exp = expect_from_impl(cases[i], outs[i])[j]
         got = model_view(mo, j == 1)
         if exp != got:
-            dis.append({"case": cases[i], "view": "child" if j else "caller", "implementation": outs[i], "model_input": ml,
+            dis.append({"profile": profile, "case": cases[i], "view": "child" if j else "caller", "implementation": outs[i], "model_input": ml,
                         "model": mo, "expected_of_model": exp})
     st["disagreements"] += len(dis)
+    pf["disagreements"] += len(dis)
     if dis:
         ctx.extra.setdefault("disagreements", []).extend(dis[:5])
     return outs
 
 
-def run(ctx):
-    ctx.rule = ("cases = every scenario (%d: each public descriptor-creating operation, incl. invalid arguments) x every index k of the "
-                "system calls of its fault-free run x errno in {EINTR,EAGAIN,EMFILE,ENOMEM,EACCES,EIO} + call-specific "
-                "{EINPROGRESS; ENOENT,EEXIST} + forced values (0, short) for read/write/ppoll/getdents64/copy_file_range, then a second "
-                "fault at every call of the NEW path a first fault opened (thorough: a third), and for spawn every call of the forked "
-                "child x {EBADF,EACCES,EINTR}; ALL OF THIS once with the ordinary descriptor table and once for each non-empty subset of "
-                "{0,1,2} free at entry (7 entry states: the operation's creations land on the standard numbers), plus every scenario with "
-                "the table nearly full (RLIMIT_NOFILE leaves k = 0..#creations-1 numbers: a real EMFILE at each creation); "
-                "distinct_nontrivial = distinct (scenario, entry state, failed call name(s), errno class, outcome) "
-                "observed on the implementation" % len(SCEN))
-    ctx.assumptions += [
-        "the scripts of Model/FdScript.lean describe the operations' control flow (checked on every run: call names, outcome and "
-        "descriptor counts of the real run equal exec(script, recorded answers) for every case)",
-        "a forced failure of close() still releases the descriptor (Linux semantics; the harness performs the close, then reports the errno)",
-        "outcomes of data-dependent steps (path too long, bytes remaining, directory entry kinds, search finished) are derived from the "
-        "scenario's data and the recorded answers, and handed to the model as its step oracle",
-        "Stdio::RawFd(fd) is treated as transferring ownership of fd to spawn (it is wrapped in an OwnedFd and closed by the caller-side "
-        "of spawn); see the known finding about the paths where it is not",
-        "io_uring set-up/teardown is checked by C18; the recursion of remove_all is unrolled to depth 3 with the inductive step as a summary",
-        "descriptor tables are read with fcntl(F_GETFD) over 0..255; the harness keeps its own channels on numbers >= 100 (result line: "
-        "a dup of stdout at >= 240, never fd 1) and closes the chosen subset of {0,1,2} after the scenario is set up, right before the "
-        "operation; a witness dup of every foreign descriptor is compared with its number afterwards by kcmp(KCMP_FILE) (identity of the "
-        "open file description, not the number)",
-        "OBSERVED, not proved: the kernel hands a creation the lowest free number (the model's `lowestFree`); checked on every case: the "
-        "numbers the real creations received and the real table after the operation equal what `execK` predicts from the entry table. "
-        "That the code's behaviour does not depend on the numbers it receives is checked by running every case under every entry state",
-        "entry states explored: which of 0,1,2 are free; nearly full (real EMFILE).  Not explored: a table with holes above 2, "
-        "RLIMIT_NOFILE combined with free standard numbers",
-    ]
-    ctx.trusted += ["harness/c12 casekit (sc-shim handler executing/forcing/recording every system call of the operation, per process)"]
-    ok = C.lean_prove(ctx, "TinyVerif.Props.C12", drivers=["drv_c12"])
-    exe, err = C.cargo_build(ctx, "c12")
-    if exe is None:
-        ctx.broken.append({"harness_build_failed": err})
-        ctx.violation({"kind": "harness-build-failed"}, {"error": err}, no_input=True)
-        return
-    drv = [C.driver_path("drv_c12")]
+def sweep(ctx, exe, drv, profile, full):
+    """all streams against ONE compiled artefact.  `full`: every stream complete (up to the tier's caps); otherwise the
+    complete fault-free runs (ordinary table, every entry state, table nearly full) and the complete one-fault sweep on the
+    ordinary table, with the one-fault sweep under the entry states and the deeper levels sampled from VERIF_SEED."""
+    quick = ctx.tier == "quick"
+    pf = ctx.extra.setdefault("profiles", {}).setdefault(profile, {"cases": 0, "spec_failures": 0, "disagreements": 0})
+    pf["binary"] = exe
+    pf["scope"] = "complete" if full else "fault-free complete, one-fault complete on the ordinary table, entry-state one-fault and deeper levels sampled"
     names = sorted(SCEN)
+    # io_uring may be unavailable (old kernel, seccomp): the set-up scenarios then just see the errno, `drop(ring)` has no ring
+    _, probe, _ = C.run_filter([exe], ["io_uring_setup -"])
+    pf["io_uring_available"] = bool(probe) and parse(probe[0]).get("out") == "ok"
+    if not pf["io_uring_available"]:
+        names = [n for n in names if not n.startswith("io_uring_drop")]
+        ctx.broken.append({"io_uring": "setup_io_uring does not succeed on this kernel (%s): drop(ring) not exercised in the %s profile" % (probe[:1], profile)})
     base_tr = {}
 
     def level1_of(cases, outs):
@@ -446,7 +469,7 @@ def run(ctx):
     def deeper(frontier, stream_fmt, cap):
         """further faults on the paths that only exist after an earlier fault"""
         got = []
-        depth = 2 if ctx.tier == "quick" else 3
+        depth = 2 if quick else 3
         for lvl in range(2, depth + 1):
             nxt = []
             for c, o in frontier:
@@ -468,27 +491,31 @@ def run(ctx):
             nxt = sorted(set(nxt))
             if len(nxt) > cap:
                 nxt = ctx.rng.shuffle(nxt)[:cap]
-            o2 = run_cases(ctx, exe, drv, nxt, stream_fmt % lvl)
+            o2 = run_cases(ctx, exe, drv, nxt, stream_fmt % lvl, profile)
             frontier = list(zip(nxt, o2))
             got += frontier
         return got
 
+    cap = (1500 if quick else 20000) if full else 400
     # ---- the ordinary table (0,1,2 open, plenty of room)
     base_cases = ["%s -" % n for n in names]
-    base = run_cases(ctx, exe, drv, base_cases, "fault-free")
+    base = run_cases(ctx, exe, drv, base_cases, "fault-free", profile)
     if not base:
-        return
+        return []
     level1 = level1_of(base_cases, base)
-    outs1 = run_cases(ctx, exe, drv, level1, "one-fault")
+    outs1 = run_cases(ctx, exe, drv, level1, "one-fault", profile)
     allc = list(zip(base_cases, base)) + list(zip(level1, outs1))
-    allc += deeper(list(zip(level1, outs1)), "%d-faults", 1500 if ctx.tier == "quick" else 20000)
+    allc += deeper(list(zip(level1, outs1)), "%d-faults", cap)
     # ---- every non-empty subset of {0,1,2} free at entry: the creations land on the standard numbers
     ent_cases = ["%s@%s -" % (n, e) for n in names for e in ENTRY_SETS]
-    ent = run_cases(ctx, exe, drv, ent_cases, "entry-fault-free")
+    ent = run_cases(ctx, exe, drv, ent_cases, "entry-fault-free", profile)
     ent1 = level1_of(ent_cases, ent)
-    ento1 = run_cases(ctx, exe, drv, ent1, "entry-one-fault")
+    if not full and len(ent1) > 2000:
+        pf["entry_one_fault_sampled"] = "2000 of %d" % len(ent1)
+        ent1 = sorted(ctx.rng.shuffle(ent1)[:2000])
+    ento1 = run_cases(ctx, exe, drv, ent1, "entry-one-fault", profile)
     allc += list(zip(ent_cases, ent)) + list(zip(ent1, ento1))
-    allc += deeper(list(zip(ent1, ento1)), "entry-%d-faults", 1500 if ctx.tier == "quick" else 20000)
+    allc += deeper(list(zip(ent1, ento1)), "entry-%d-faults", cap)
     # ---- the table nearly full: only k numbers left, the (k+1)-th creation gets a REAL EMFILE (also with 0 free)
     lim_cases = []
     for n, o in zip(names, base):
@@ -497,15 +524,98 @@ def run(ctx):
         nums = parse(o).get("nums", "-")
         cnt = 0 if nums == "-" else len(nums.split(","))
         lim_cases += ["%s@lim%d -" % (n, k) for k in range(min(cnt, 10))]
-    limo = run_cases(ctx, exe, drv, lim_cases, "table-nearly-full")
+    limo = run_cases(ctx, exe, drv, lim_cases, "table-nearly-full", profile)
     allc += list(zip(lim_cases, limo))
-    # malformed lines are rejected by both sides
+    # per-profile coverage
+    seen = set()
+    for c, o in allc:
+        if "=" not in o:
+            continue
+        d = parse(o)
+        seen.add((scen_of(c), entry_of(c), fault_call(c, d), errno_class(c.split()[1]), d["out"].split(":")[0]))
+        ctx.hist("outcomes_" + profile, d["out"].split(":")[0])
+    pf["distinct_nontrivial"] = len(seen)
+    pf["scenarios"] = len({scen_of(c) for c, o in allc if "=" in o})
+    pf["model_scripts_exercised"] = len({SCEN[scen_of(c)][0] for c, o in allc if "=" in o})
+    dr = [(c, o) for c, o in allc if scen_of(c).startswith("io_uring_drop") and "=" in o]
+    pf["drop_of_IoUring"] = {"cases": len(dr), "released_the_ring_fd": sum(1 for c, o in dr if "close:" in parse(o)["trace"])}
+    return allc
+
+
+def run(ctx):
+    ctx.rule = ("cases = every scenario (%d: each public descriptor-creating operation, incl. invalid arguments; io_uring set-up and "
+                "drop(ring) with and without IORING_FEAT_SINGLE_MMAP) x every index k of the "
+                "system calls of its fault-free run x errno in {EINTR,EAGAIN,EMFILE,ENOMEM,EACCES,EIO} + call-specific "
+                "{EINPROGRESS; ENOENT,EEXIST} + forced values (0, short) for read/write/ppoll/getdents64/copy_file_range, then a second "
+                "fault at every call of the NEW path a first fault opened (thorough: a third), and for spawn every call of the forked "
+                "child x {EBADF,EACCES,EINTR}; ALL OF THIS once with the ordinary descriptor table and once for each non-empty subset of "
+                "{0,1,2} free at entry (7 entry states: the operation's creations land on the standard numbers), plus every scenario with "
+                "the table nearly full (RLIMIT_NOFILE leaves k = 0..#creations-1 numbers: a real EMFILE at each creation); "
+                "EVERY STREAM AGAINST TWO COMPILED ARTEFACTS: the harness (rusl + tiny-std from the working tree) built in the dev profile "
+                "(opt-level 0, debug assertions + overflow checks on) and in the release profile (opt-level 2, both off) — thorough: all of it "
+                "in both; quick: all of it in dev, and in release every fault-free run (all entry states, table nearly full) and the complete "
+                "one-fault sweep on the ordinary table, the entry-state one-fault sweep (2000) and the deeper levels (400 each) sampled; "
+                "coverage per profile under `profiles`; "
+                "distinct_nontrivial = distinct (scenario, entry state, failed call name(s), errno class, outcome) "
+                "observed on the implementation (either profile)" % len(SCEN))
+    ctx.assumptions += [
+        "the scripts of Model/FdScript.lean describe the operations' control flow (checked on every run: call names, outcome and "
+        "descriptor counts of the real run equal exec(script, recorded answers) for every case)",
+        "BUILD PROFILE: the model has no notion of it — a script describes the source, and says which calls are made whatever the compiler "
+        "flags.  What is established is the correspondence, for BOTH compiled artefacts: dev (debug assertions on, unoptimised) and "
+        "release (debug assertions off, optimised) builds of the same working tree each reproduce exec(script, answers) and each pass the "
+        "judge, on the streams listed per profile.  Code under cfg(debug_assertions) / debug_assert! / cfg!(debug_assertions) therefore "
+        "has to behave like the script in both.  Not explored: other flag combinations (optimised with debug assertions on, "
+        "overflow-checks alone, panic=abort, LTO), other targets than x86_64-linux",
+        "a forced failure of close() still releases the descriptor (Linux semantics; the harness performs the close, then reports the errno)",
+        "outcomes of data-dependent steps (path too long, bytes remaining, directory entry kinds, search finished, whether the kernel "
+        "reports IORING_FEAT_SINGLE_MMAP) are derived from the scenario's data and the recorded answers, and handed to the model as its step oracle",
+        "Stdio::RawFd(fd) is treated as transferring ownership of fd to spawn (it is wrapped in an OwnedFd and closed by the caller-side "
+        "of spawn); see the known finding about the paths where it is not",
+        "io_uring: setup_io_uring and Drop of IoUring are operations of this property as far as DESCRIPTORS go (ring fd handed out / closed "
+        "exactly once on every path, both profiles; Drop is run as the operation `drop(ring)` owning the ring fd on entry); the ring's "
+        "MAPPINGS (each unmapped exactly once, with its length) are C18's and carry no effect in these scripts; a forced munmap failure "
+        "is not executed (the mapping stays, no descriptor involved).  The recursion of remove_all is unrolled to depth 3 with the "
+        "inductive step as a summary",
+        "descriptor tables are read with fcntl(F_GETFD) over 0..255; the harness keeps its own channels on numbers >= 100 (result line: "
+        "a dup of stdout at >= 240, never fd 1) and closes the chosen subset of {0,1,2} after the scenario is set up, right before the "
+        "operation; a witness dup of every foreign descriptor is compared with its number afterwards by kcmp(KCMP_FILE) (identity of the "
+        "open file description, not the number)",
+        "OBSERVED, not proved: the kernel hands a creation the lowest free number (the model's `lowestFree`); checked on every case: the "
+        "numbers the real creations received and the real table after the operation equal what `execK` predicts from the entry table. "
+        "That the code's behaviour does not depend on the numbers it receives is checked by running every case under every entry state",
+        "entry states explored: which of 0,1,2 are free; nearly full (real EMFILE).  Not explored: a table with holes above 2, "
+        "RLIMIT_NOFILE combined with free standard numbers",
+    ]
+    ctx.trusted += ["harness/c12 casekit (sc-shim handler executing/forcing/recording every system call of the operation, per process)",
+                    "cargo/rustc profiles of harness/Cargo.toml ([profile.dev]: debug-assertions = true, opt-level 0; [profile.release]: "
+                    "debug-assertions = false, opt-level 2): the two artefacts the correspondence is run against"]
+    ok = C.lean_prove(ctx, "TinyVerif.Props.C12", drivers=["drv_c12"])
+    exes = {}
+    for profile in PROFILES:
+        exe, err = build(ctx, profile)
+        if exe is None:
+            ctx.broken.append({"harness_build_failed": err, "profile": profile})
+            ctx.violation({"kind": "harness-build-failed", "profile": profile}, {"error": err, "profile": profile}, no_input=True)
+            return
+        exes[profile] = exe
+    exe = exes["dev"]
+    drv = [C.driver_path("drv_c12")]
+    allc = []
+    for profile in PROFILES:
+        got = sweep(ctx, exes[profile], drv, profile, full=(profile == "dev" or ctx.tier != "quick"))
+        if not got:
+            return
+        allc += got
+    # malformed lines are rejected by both sides (and by both artefacts)
     bad = ["nope -", "file_open x", "file_open 1:q4", "file_open", "file_open@ -", "file_open@3 -", "file_open@10 -", "file_open@lim -"]
-    rc, bo, _ = C.run_filter([exe], bad)
+    bo = []
+    for profile in PROFILES:
+        bo += C.run_filter([exes[profile]], bad)[1]
     rc, bm, _ = C.run_filter(drv, ["cur nope a=. s=. ca=- cs=-", "cur file_open a=x s=. ca=- cs=-", "zzz file_open a=. s=. ca=- cs=-", "cur",
                                    "K cur file_open a=v0 s=1 t=1,x own=-", "K cur file_open a=v0 s=1 t=1,2 own=7", "K cur tcp_inprogress_try a=e111,v0 s=. t=1,2 own=-",
-                                   "K cur file_open a=v0 s=1 t=1,2"])
-    ctx.evaluations += len(bad)
+                                   "K cur file_open a=v0 s=1 t=1,2", "K cur io_uring_drop a=v0,v0,v0 s=1 t=1,2 own=-"])
+    ctx.evaluations += len(bad) * len(PROFILES)
     if any(x != "bad-op" for x in bo + bm):
         ctx.violation({"kind": "malformed-accepted"}, {"harness": bo, "driver": bm}, no_input=True)
     # coverage
@@ -522,13 +632,15 @@ def run(ctx):
         ctx.hist("handed", d["handed"])
     ctx.extra["scenarios"] = len(SCEN)
     ctx.extra["model_scripts_exercised"] = sorted({v[0] for v in SCEN.values()})
-    for c, o in (allc[:3] + [x for x in allc if "e11!" in x[1] and "ppoll" in x[1]][:2] + [x for x in allc if " c" in x[0]][:2]):
+    for c, o in (allc[:3] + [x for x in allc if "e11!" in x[1] and "ppoll" in x[1]][:2] + [x for x in allc if " c" in x[0]][:2]
+                 + [x for x in allc if x[0].startswith("io_uring_drop")][:1]):
         ctx.sample({"case": c, "implementation": o[:400]})
     dis = ctx.extra.get("disagreements", [])
     if dis and not ctx.violations:
         ctx.broken.append({"correspondence": "C12", "first_disagreement": dis[0], "count": sum(s["disagreements"] for s in ctx.extra["streams"].values())})
-        ctx.violation({"kind": "model-disagreement", "scenario": dis[0]["case"].split()[0]},
-                      {"first_disagreement": dis[0], "note": "the implementation satisfies the property on every explored case; the script no longer describes the code"},
+        ctx.violation({"kind": "model-disagreement", "scenario": dis[0]["case"].split()[0], "profile": dis[0]["profile"]},
+                      {"first_disagreement": dis[0], "note": "the implementation satisfies the property on every explored case; the script no longer describes "
+                       "the code as compiled in the %s profile" % dis[0]["profile"]},
                       no_input=True)
     if not ok and not ctx.violations:
         ctx.violation({"kind": "proof-broken"}, {"broken": ctx.broken}, no_input=True)
@@ -539,12 +651,13 @@ def replay(ctx, rp):
     if not case:
         print("replay file names a broken obligation, not an input:", json.dumps(rp.get("replay"))[:600])
         return 2
-    exe, err = C.cargo_build(ctx, "c12")
+    profile = rp.get("replay", {}).get("profile", "dev")
+    exe, err = build(ctx, profile)
     if exe is None:
         print(err)
         return 2
     _, outs, _ = C.run_filter([exe], [case])
     o = outs[0] if outs else "no output"
     why = judge(case, o)
-    print("case: %s\nimplementation: %s\nverdict: %s" % (case, o, why or "satisfies the property"))
+    print("profile: %s\ncase: %s\nimplementation: %s\nverdict: %s" % (profile, case, o, why or "satisfies the property"))
     return 1 if why else 0
